@@ -63,6 +63,7 @@ type Obs struct {
 	ErrOpt    S       `json:"errOpt"`
 	ErrNames  []S     `json:"errNames"`
 	ErrWord   S       `json:"errWord"`
+	ErrList   []S     `json:"errList"` // ErrInvalidChoice: the allowed values as listed in the message
 	ErrMsg    S       `json:"errMsg"`
 	Values    [][]any `json:"values"`
 	IsSet     []bool  `json:"isSet"`
@@ -178,6 +179,7 @@ func between(msg, open, close string) (string, bool) {
 // classifyErr projects an error onto type, the option it names, the names it lists, the word it quotes.
 func classifyErr(err error, o *Obs) {
 	o.ErrNames = []S{}
+	o.ErrList = []S{}
 	if err == nil {
 		o.ErrType = "none"
 		return
@@ -259,6 +261,9 @@ func classifyErr(err error, o *Obs) {
 				o.ErrOpt = toS(n)
 			}
 		}
+		if i := strings.LastIndex(msg, "Allowed values are: "); i >= 0 {
+			o.ErrList = splitList(msg[i+len("Allowed values are: "):])
+		}
 	}
 }
 
@@ -307,7 +312,7 @@ func outClass(got string, err error) int {
 
 // runArgparse runs one scenario against the real library.
 func runArgparse(t *Tree, sc *Scenario, argv []S) (obs *Obs) {
-	obs = &Obs{ErrNames: []S{}, Values: [][]any{}, Pos: [][][]S{}, Retargs: []S{}, Chain: []int{}, Events: []event{}, IsSet: []bool{}}
+	obs = &Obs{ErrNames: []S{}, ErrList: []S{}, Values: [][]any{}, Pos: [][][]S{}, Retargs: []S{}, Chain: []int{}, Events: []event{}, IsSet: []bool{}}
 	b := Build(t, poptsOf(sc.POpts))
 	if b.err != nil {
 		obs.SetupErr = b.err.Error()
